@@ -188,6 +188,13 @@ def values_for(rng, eq, a, ua_scale, C, tier, n=3):
     return out
 
 
+def covered_guard(eq, ua, ub):
+    """replay prefix: the request is only required to succeed where the equivalence covers it"""
+    return (f"from unyt.equivalencies import equivalence_registry as _R\n"
+            f"if not (Unit({ua!r}).dimensions in _R[{eq!r}]._dims and Unit({ub!r}).dimensions in _R[{eq!r}]._dims):\n"
+            f"    raise SystemExit(0)  # not a covered request on this tree\n")
+
+
 def kw_src(kw):
     return "".join(f", {k}={v!r}" for k, v in kw.items())
 
@@ -356,7 +363,7 @@ class Sweep:
                 res[en] = fn()
             except Exception as e:
                 chk.fail(f"raise|{keyp}|{en}|{core.exc_name(e)}", f"a covered request raised {core.exc_name(e)} ({en})",
-                         {"python": snippet(head + entry_src[en] + "\n"), "equivalence": eq, "units": [ua, ub], "error": repr(e)[:300]})
+                         {"python": snippet(covered_guard(eq, ua, ub) + head + entry_src[en] + "\n"), "equivalence": eq, "units": [ua, ub], "error": repr(e)[:300]})
                 continue
             if not en.startswith("convert_"):
                 pure(en)
@@ -423,7 +430,7 @@ class Sweep:
                           "equivalence": eq, "units": [ua, ub], "kw": kw})
         except Exception as e:
             chk.fail(f"raise|{keyp}|back|{core.exc_name(e)}", f"the way back raised {core.exc_name(e)}",
-                     {"python": snippet(head + f"x.to_equivalent({ub!r}, {eq!r}{kws}).to_equivalent({ua!r}, {eq!r}{kws})\n"), "error": repr(e)})
+                     {"python": snippet(covered_guard(eq, ua, ub) + head + f"x.to_equivalent({ub!r}, {eq!r}{kws}).to_equivalent({ua!r}, {eq!r}{kws})\n"), "error": repr(e)})
         # --- via an intermediate member --------------------------------------------------------
         for dc in dims:
             if dc == da or dc == db:
@@ -445,7 +452,7 @@ class Sweep:
                 chk.count("path:" + eq)
             except Exception as e:
                 chk.fail(f"raise|{eq}|{a}->{b}->{c}|{core.exc_name(e)}", f"a path raised {core.exc_name(e)}",
-                         {"python": snippet(head + f"x.to_equivalent({ub!r}, {eq!r}{kws}).to_equivalent({uc!r}, {eq!r}{kws}); x.to_equivalent({uc!r}, {eq!r}{kws})\n"), "error": repr(e)})
+                         {"python": snippet(covered_guard(eq, ua, ub) + covered_guard(eq, ua, uc) + head + f"x.to_equivalent({ub!r}, {eq!r}{kws}).to_equivalent({uc!r}, {eq!r}{kws}); x.to_equivalent({uc!r}, {eq!r}{kws})\n"), "error": repr(e)})
         # --- 0-d quantities (a returned object is rebuilt, not a view) ---------------------------
         if with_quantity:
             try:
@@ -464,7 +471,7 @@ class Sweep:
                 self.add_model("inplace", eq, ua, ub, vals[0], kw, float(q2.d), RT(cond), f"{keyp} quantity in-place {ua}->{ub}")
             except Exception as e:
                 chk.fail(f"raise|{keyp}|quantity|{core.exc_name(e)}", f"0-d quantity request raised {core.exc_name(e)}",
-                         {"python": snippet(f"q = unyt_quantity({vals[0]!r}, {ua!r}); q.to_equivalent({ub!r}, {eq!r}{kws}); q.convert_to_equivalent({ub!r}, {eq!r}{kws})\n"), "error": repr(e)})
+                         {"python": snippet(covered_guard(eq, ua, ub) + f"q = unyt_quantity({vals[0]!r}, {ua!r}); q.to_equivalent({ub!r}, {eq!r}{kws}); q.convert_to_equivalent({ub!r}, {eq!r}{kws})\n"), "error": repr(e)})
         # --- model lines ---------------------------------------------------------------------------
         for i, v in enumerate(vals):
             self.add_model("copy", eq, ua, ub, v, kw, float(r.d[i]), RT(cond), f"{keyp} copy {ua}->{ub}")
@@ -556,7 +563,7 @@ class Sweep:
                     r = x.to_equivalent(ub, eq)
                 except Exception as e:
                     chk.fail(f"raise|{eq}|{a}->{b}|to_equivalent|{core.exc_name(e)}|reducible-input-unit", f"copying request with a reducible input unit raised {core.exc_name(e)}",
-                             {"python": snippet(f"x = unyt_array(np.array([{v!r}]), {ua!r})\nx.to_equivalent({ub!r}, {eq!r})\n"), "units": [ua, ub]})
+                             {"python": snippet(covered_guard(eq, ua, ub) + f"x = unyt_array(np.array([{v!r}]), {ua!r})\nx.to_equivalent({ub!r}, {eq!r})\n"), "units": [ua, ub]})
                     continue
                 y = x.copy()
                 try:
@@ -606,6 +613,59 @@ class Sweep:
                     chk.fail(f"endpoint|lorentz|{'v=0' if v == 0.0 else 'gamma=1'}|{mode}", f"{v} {ua} -> {ub}: expected {want} and back {back}; {what}",
                              {"python": snippet(f"x = unyt_array(np.array([{v!r}]), {ua!r})\n{call}\nb = r.copy().to_equivalent({ua!r}, 'lorentz')\nassert float(r.d[0]) == {want!r} and float(b.d[0]) == {back!r}, (r, b)\n"), "units": [ua, ub]})
                 self.add_model(mode, "lorentz", ua, ub, v, {}, want, 0.0, f"lorentz end point {v} {ua} {mode}")
+
+    def has_equivalent(self):
+        """Unit.has_equivalent / unyt_array.has_equivalent / list_equivalencies: the model's answer
+        (c09.has_equivalent) and, as direct oracle, the membership the reference formulas imply"""
+        import contextlib
+        import io
+
+        from unyt import Unit, unyt_quantity
+
+        chk = self.chk
+        ref_members = {}
+        for eq in self.reg:
+            for a in UNIT_POOL:
+                for b in UNIT_POOL:
+                    if reference(eq, a, b) is not None:
+                        ref_members.setdefault(eq, set()).update((a, b))
+        names = list(self.reg) + ["no_such_equivalence"]
+        for dn_ in list(UNIT_POOL) + list(OTHER_POOL):
+            if not self.units.get(dn_):
+                continue
+            u = self.units[dn_][-1]
+            U = Unit(u)
+            buf = io.StringIO()
+            with contextlib.redirect_stdout(buf):
+                U.list_equivalencies()
+            listed = buf.getvalue().splitlines()
+            want_listed = []
+            for eq in names:
+                try:
+                    got = bool(U.has_equivalent(eq))
+                    got2 = bool(unyt_quantity(1.0, u).has_equivalent(eq))
+                    exp = "1" if got else "0"
+                    if got != got2:
+                        chk.fail(f"has_equivalent|{eq}|array-vs-unit", f"{u}: Unit says {got}, unyt_quantity says {got2}",
+                                 {"python": snippet(f"assert Unit({u!r}).has_equivalent({eq!r}) == unyt_quantity(1.0, {u!r}).has_equivalent({eq!r})\n")})
+                    if got:
+                        want_listed.append(str(self.reg[eq]()))
+                    if eq in ref_members and dn_ in UNIT_POOL and got != (dn_ in ref_members[eq]):
+                        chk.fail(f"has_equivalent|{eq}|{dn_}", f"Unit({u!r}).has_equivalent({eq!r}) is {got}; the defining formulas relate {sorted(ref_members[eq])}",
+                                 {"python": snippet(f"assert Unit({u!r}).has_equivalent({eq!r}) == {dn_ in ref_members[eq]!r}\n"), "equivalence": eq, "units": [u]})
+                except KeyError:
+                    exp = "err:KeyError"
+                except Exception as e:
+                    exp = "err:" + core.exc_name(e)
+                chk.count("has_equivalent:" + exp)
+                chk.case(("has_equivalent", eq, dn_))
+                if self.collect:
+                    self.mlines.append("\t".join(["c09.has_equivalent", eq, gen.dim_vec(U.dimensions)]))
+                    self.mexpect.append((f"has_equivalent {u} {eq}", ("flag", exp), 0.0))
+            if listed != want_listed:
+                chk.fail("list_equivalencies", f"{u}: list_equivalencies printed {listed}, has_equivalent selects {want_listed}",
+                         {"python": snippet(f"import io, contextlib\nfrom unyt.equivalencies import equivalence_registry as R\nb = io.StringIO()\nwith contextlib.redirect_stdout(b):\n    Unit({u!r}).list_equivalencies()\n"
+                                             f"assert b.getvalue().splitlines() == [str(c()) for k, c in R.items() if Unit({u!r}).has_equivalent(k)]\n")})
 
     def offset_inputs(self):
         """a reading on an offset scale (degC, degF) is either refused or converted as the absolute
@@ -789,8 +849,10 @@ def check_tables(chk, X, model):
         elif kind == "pow":
             from unyt import unyt_array
 
+            from unyt import unyt_quantity
+
             try:
-                np.power(unyt_array(np.array([1.0]), "degC"), 4)
+                np.multiply(unyt_quantity(1.0, "W/m**2/K**4"), np.power(unyt_array(np.array([1.0]), "degC"), 4))
                 live = "none"
             except Exception as e:
                 live = core.exc_name(e)
@@ -800,7 +862,7 @@ def check_tables(chk, X, model):
                 live = "Other"
             chk.count("pow-refuses-offset:" + live)
             if r[0] != "ok" or r[1] != live:
-                chk.disagree("c09.pow_refuses", f"model {r} vs np.power(1 degC, 4): {live}")
+                chk.disagree("c09.pow_refuses", f"model {r} vs np.multiply(k, np.power(1 degC, 4)): {live}")
         elif kind == "const":
             live = float(getattr(pc, arg).in_mks().v)
             if r[0] != "ok" or int(r[1]) != core.f2b(live) or r[2] != gen.dim_vec(getattr(pc, arg).units.dimensions):
@@ -852,6 +914,7 @@ def run(tier, seed):
     sw.offset_inputs()
     sw.reducible_inputs()
     sw.lorentz_endpoints()
+    sw.has_equivalent()
 
     # ---- correspondence: the model's numbers and outcomes ------------------------------------
     if model is not None and sw.mlines:
@@ -861,6 +924,12 @@ def run(tier, seed):
             replies = []
             chk.disagree("driver", repr(e))
         for rep, (tag, exp, tol) in zip(replies, sw.mexpect):
+            if isinstance(exp, tuple):  # has_equivalent: ("flag", "0" | "1" | "err:…")
+                chk.count("model:has_equivalent")
+                got = rep[1] if rep[0] == "ok" else "err:" + rep[1]
+                if got != exp[1]:
+                    chk.disagree("c09.has_equivalent", f"{tag}: model {rep}, implementation {exp[1]}")
+                continue
             chk.count("model:" + ("value" if not isinstance(exp, str) else exp))
             if isinstance(exp, str):
                 got = "err:" + rep[1] if rep[0] == "err" else "value"
